@@ -253,6 +253,28 @@ pub fn check_with(case: &Case, avoid: Avoid) -> Outcome {
                 continue;
             }
         }
+        // auto-fill records the cells it overwrites the same way a paste does (old spill cells
+        // become undo values): same listed root cause, other entry point
+        let fill_region = match op {
+            Op::AutofillRows { a, to_row } => Some((a.s, a.row.min(*to_row), a.col, (a.row + a.h - 1).max(*to_row), a.col + a.w - 1)),
+            Op::AutofillCols { a, to_col } => Some((a.s, a.row, a.col.min(*to_col), a.row + a.h - 1, (a.col + a.w - 1).max(*to_col))),
+            _ => None,
+        };
+        if let Some((s, r1, c1, r2, c2)) = fill_region {
+            let sheet = ops::res_sheet(&um, s);
+            let spill = um
+                .get_model()
+                .workbook
+                .worksheets
+                .get(sheet as usize)
+                .map(|ws| (r1..=r2).any(|r| (c1..=c2).any(|c| matches!(ws.cell(r, c), Some(Cell::SpillCell { .. })))))
+                .unwrap_or(false);
+            if (avoid.paste_spill || avoid.paste_onto_spill) && spill {
+                o.excluded += 1;
+                o = o.label("guard-skipped:autofill-over-a-spill-cell");
+                continue;
+            }
+        }
         let hist_before = um.verif_history_len();
         let res = ops::apply(&mut um, op);
         let hist_after = um.verif_history_len();
